@@ -2,11 +2,15 @@
 from .. import common, sched_gen, sched_impl, sched_suite
 
 PROPERTY = "C07"
-LEAN_MODULE = "IsobarV.Props.C07"
+LEAN_MODULE = "IsobarV.Props.C07Runs"
+CHECKER_MODULES = ["IsobarV.Props.C07", "IsobarV.Sched.Solo", "IsobarV.Sched.Multi", "IsobarV.Props.C07Runs"]
 THEOREMS = ["IsobarV.C07." + t for t in ("tick_phase_order", "phase_one_only_offs", "event_phase_in_order", "tick_decomposes",
     "event_phase_is_merge", "non_interference", "solo_run", "prepared_pointwise", "static_idempotent", "static_never_skips",
-    "static_hold", "static_keeps", "globals_get_set")] + \
-    ["IsobarV.Sched." + t for t in ("tickTrack_solo", "phaseTracks_solo", "foldl_fireOne_tracks")]
+    "static_hold", "static_keeps", "globals_get_set",
+    # whole runs (any number of ticks): lean/IsobarV/Props/C07Runs.lean
+    "tick_is_merge", "run_is_merge", "alone_is_the_solo_timeline", "mergedCalls_append", "exW_noActions", "exW_posDur", "exW_faultless")] + \
+    ["IsobarV.Sched." + t for t in ("tickTrack_solo", "phaseTracks_solo", "foldl_fireOne_tracks",
+                                    "soloTick_not_diverged", "soloTick_not_raised", "tickTL_frame")]
 RULE = ("(a) 1-6 tracks with separate streams on distinct channels, coinciding and non-coinciding events, random scheduling order, "
         "legato repeats (gate = 1): real Timeline vs Lean model on the ordered calls of every tick; (b) merge oracle on the "
         "implementation alone: the projection of the multi-track trace on each track's channel equals that track's solo run, and "
